@@ -190,6 +190,18 @@ mod verif_app_wit {
         let responses = app.run(vec![q], None).expect("user-level errors are responses, not a failed run");
         assert_eq!(responses.len(), 3, "three queries after expansion, one response each; found {}", serde_json::to_string(&responses).unwrap());
         assert_eq!(responses.iter().filter(|r| r.get("error").is_some()).count(), 1, "only the child that fails is an error response");
+        // the surviving children go through the REMAINING input plugins like any other query (no panic, nothing skipped): a third plugin marks them
+        app.input_plugins.push(std::sync::Arc::new(crate::plugin::input::default::inject::inject_plugin::InjectInputPlugin::new(String::from("marker"), json!("seen"), Some(true))));
+        for failing_position in 0..3usize {
+            let mut cases = vec![json!({"other": 1}), json!({"other": 2}), json!({"other": 3})];
+            cases[failing_position] = json!({"tag": "already"});
+            let q = json!({"origin_vertex": 0, "destination_vertex": 2, "grid_search": {"_case": cases}});
+            let responses = app.run(vec![q], None).expect("user-level errors are responses, not a failed run");
+            assert_eq!(responses.len(), 3, "failing member at position {}: one response per member", failing_position);
+            let ok: Vec<&Value> = responses.iter().filter(|r| r.get("error").is_none()).collect();
+            assert_eq!(ok.len(), 2, "failing member at position {}: the two other members are served", failing_position);
+            for r in ok { assert_eq!(r["request"]["marker"], json!("seen"), "failing member at position {}: a surviving member skipped an input plugin: {}", failing_position, r["request"]); }
+        }
     }
 
     /// C12: ill-typed or out-of-range vertex fields -- each query is answered with an ERROR response that echoes it (it is not run as some other query)
